@@ -260,10 +260,13 @@ def _r4(ctx, f):
         ctx.broken("R4: `if assign_unknown:` not found")
     u = unk[0]
     body = [U(s) for s in u.body]
+    ctx.check(any(C.is_zero_vector_assign(s, "instruction_form.port_pressure") and C.zero_vector(s.value) == "port_number"
+                  for s in u.body), "R4", "zero pressure vector", f.where(u),
+              "the unknown path does not set instruction_form.port_pressure to one zero per port", f.qname,
+              "unknown path: zero pressure vector")
     want = {
         "throughput = 0.0": "throughput 0",
         "latency = 0.0": "latency 0",
-        "instruction_form.port_pressure = [0.0 for i in range(port_number)]": "zero pressure vector",
     }
     for stmt, desc in want.items():
         ctx.check(any(b == stmt or b.replace("_", "i") == stmt.replace("_", "i") for b in body), "R4", desc,
